@@ -367,3 +367,33 @@ def handler_state_discipline(ctx: Ctx) -> None:
                     ctx.ob(f"{ci.name}.{m.name}: memo self.{tgt.value.attr}[{unparse(tgt.slice)[:30]}] is keyed by every parameter its value depends on", not missing, at=m, node=st,
                            msg=f"the stored value also depends on {missing}: whichever call comes first decides the answer for the rest of the run (e.g. an element and an attribute with the same qname)")
     ctx.note("C02.R7 handler memo stores", n)
+
+
+@rule("C02.R8")
+def nested_lookup_and_reference_resolution(ctx: Ctx) -> None:
+    """find_nested is a breadth-first search (the nearest inner class of a name wins); an unprefixed substitutionGroup head is looked up in
+    the prefix map (default namespace) like every other QName reference."""
+    fn = ctx.repo.func("xsdata.codegen.utils:ClassUtils.find_nested")
+    g = build_cfg(fn.node)
+    # the work list: a local that is both extended / appended to and popped
+    grown = {unparse(c.func.value) for c in calls_in(fn.node) if isinstance(c.func, ast.Attribute) and c.func.attr in ("append", "extend") and isinstance(c.func.value, ast.Name)}
+    pops = [c for c in calls_in(fn.node) if isinstance(c.func, ast.Attribute) and c.func.attr in ("pop", "popleft") and unparse(c.func.value) in grown]
+    if not pops:
+        ctx.abstain("work list of find_nested", at=fn)
+    for c in pops:
+        fifo = c.func.attr == "popleft" or (c.func.attr == "pop" and len(c.args) == 1 and isinstance(c.args[0], ast.Constant) and c.args[0].value == 0)
+        ctx.ob("find_nested takes the next class from the FRONT of the work list (breadth first: the nearest inner class wins)", fifo, at=fn, node=c, construct="find_nested fifo",
+               msg="depth-first search: with the same name at two nesting depths the deeper anonymous type is bound to the field and valid documents are rejected")
+    bs = ctx.repo.func("xsdata.codegen.mappers.schema:SchemaMapper.build_substitutions")
+    gets = [c for f_ in family(ctx.repo, bs) for c in calls_in(f_.node) if isinstance(c.func, ast.Attribute) and c.func.attr == "get" and unparse(c.func.value).endswith("ns_map") and c.args and isinstance(c.args[0], ast.Name)]
+    if not gets:
+        ctx.abstain("prefix lookup of build_substitutions", at=bs)
+    for c in gets:
+        owner = next(f_ for f_ in family(ctx.repo, bs) if any(c is x for x in calls_in(f_.node)))
+        p = c.args[0].id
+        tab = reach_table(owner, c, [{p: True, f"{p} is not None": True, f"{p} is None": False}], raw=True)
+        if tab is None:
+            ctx.abstain("prefix guard of build_substitutions", at=bs)
+        else:
+            ctx.ob("build_substitutions looks an UNPREFIXED head up in the prefix map too (default namespace before target namespace)", tab == {(True,): True, (False,): True}, at=owner, node=c,
+                   construct="substitution head namespace", msg="an unprefixed substitutionGroup head skips the default namespace declaration: the member is registered under a head that does not exist and its element is dropped")
